@@ -109,6 +109,14 @@ def classify(res, gen, gen_path):
                     clause = (mm.group(1) if mm else prev).strip()
                 break
         fn = gen.func_at(loc) if loc else None
+        if fn is None:
+            # contract stated on a (re-declared) trait: the primary span is the trait's clause, the secondary span
+            # ("at the end of the function body" / "at this exit" / the call site) lies in the extracted impl method
+            for l in b[1:]:
+                mm = re.match(r'\s*(\d+)\s*\|', l)
+                if mm and gen.func_at(int(mm.group(1))):
+                    fn = gen.func_at(int(mm.group(1)))
+                    break
         failures.append({
             'kind': kind, 'message': msg, 'gen_line': loc,
             'function': fn['name'] if fn else None,
